@@ -403,6 +403,27 @@ control("C09", "empty-operand fallback keeps the operand's quantity",
         [(AR, "                q, _ = operation_func(q1, q2, 1.0, 1.0)", "                q = q2 if IsNumber(p1) else q1")], "C09.R5")
 control("C10", "empty operands leave the pair generator before the length check",
         [(VG, "            if len(self.p1) != len(self.p2):\n                raise ValueError(", "            if not self.p1 or not self.p2:\n                return\n            if len(self.p1) != len(self.p2):\n                raise ValueError(")], "C10.R2")
+# ------------------------------------------------------------------------------------------ rules added from rounds 9-10 seeds
+control("C10", "a shortcut for empty operands in front of the element loop",
+        [(AR, "        # if handling numpy, just call it all at once!\n        if values_iteration.IsNumpy():", "        if not values_iteration.IsNumpy() and (len(p1.values) == 0 or len(p2.values) == 0):\n            q, _ = operation_func(q1, q2, 1.0, 1.0)\n            return self.__class__.CreateWithQuantity(q, [])  # type:ignore[return-value]\n        # if handling numpy, just call it all at once!\n        if values_iteration.IsNumpy():")], "C10.R2")
+control("C07", "the caption is pickled only along with the unknown unit",
+        [(Q, "        if self._unknown_unit_caption:\n            lst.append(self._unknown_unit_caption)", "        if self._unit == \"<unknown>\" and self._unknown_unit_caption:\n            lst.append(self._unknown_unit_caption)")], "C07.R8")
+control("C17", "SetCurrent(None) stores the null unit system",
+        [(USM, "        self._current = unit_system\n", "        self._current = unit_system if unit_system is not None else self.__null_unit_system\n")], "C17.R3")
+control("C17", "RemoveCategory notifies although nothing was removed",
+        [(US, "        try:\n            del self._units_mapping[category]\n            self.on_default_unit(category, None)\n        except KeyError:\n            # The category is not in the unit system, so there is nothing to do\n            pass\n", "        self._units_mapping.pop(category, None)\n        self.on_default_unit(category, None)\n")], "C17.R5")
+control("C18", "CreateFromFloat takes the sign from the truncated integer part",
+        [(FV, "        sign = value / abs(value)\n", "        sign = -1 if int(value) < 0 else 1\n")], "C18.R7")
+control("C02", "a zero default is returned before the conversion to the requested unit",
+        [(S, "        except AttributeError:\n            return 0.0\n\n        if unit is not None:", "        except AttributeError:\n            return 0.0\n        if not value:\n            return 0.0\n\n        if unit is not None:")], "C02.R2")
+control("C15", "AddUnit drops only the verdict keyed by (quantity type, unit)",
+        [(UD, "        quantity_type_list.append(info)\n        # verdicts cached before this registration may no longer hold\n        self._category_unit_valid.clear()", "        quantity_type_list.append(info)\n        # verdicts cached before this registration may no longer hold\n        self._category_unit_valid.pop((quantity_type, unit), None)")], "C15.R3")
+control("C20", "the '.' is emitted before every numerator factor, the first included",
+        [(Q, "            if exp > 0:\n                if ret:\n                    ret += \".\"\n", "            if exp > 0:\n                ret += \".\"\n")], "C20.R1")
+control("C05", "_ConvertWithExp returns the value for differing exponents instead of raising",
+        [(UD, "        if from_exp != to_exp:\n            raise ValueError(\n                \"Cannot convert among different exponents (%s) to (%s)\"\n                % ((from_unit, from_exp), (to_unit, to_exp))\n            )\n", "        if from_exp != to_exp:\n            return value\n")], "C05.R4")
+control("C05", "_ConvertWithExp accepts several units on the target side",
+        [(UD, "        if len_to_unit != 1:\n            raise ComposedUnitError(\n                \"Can only convert one unit to another (not a composed unit at this point)\"\n            )\n\n        from_unit, from_exp", "        from_unit, from_exp")], "C05.R4")
 # ------------------------------------------------------------------------------------------ running
 def _apply(edits):
     overlay = {}
